@@ -9,9 +9,13 @@ import (
 	"os"
 	"reflect"
 	"sort"
+	"strings"
 	"sync"
 	"unsafe"
 
+	"github.com/sarchlab/akita/v4/mem/cache"
+	"github.com/sarchlab/akita/v4/mem/cache/writearound"
+	"github.com/sarchlab/akita/v4/mem/cache/writethrough"
 	"github.com/sarchlab/akita/v4/sim"
 	"github.com/sarchlab/akita/v4/simulation"
 	"github.com/sarchlab/akita/v4/tracing"
@@ -93,6 +97,8 @@ type cmdTracer struct {
 	drv  *driver.Driver
 	open map[string]*driver.MemCopyD2HCommand
 	done map[string]bool
+	// l1Dirs: directories of the L1 vector and scalar caches (diagnosis mode only)
+	l1Dirs []cache.Directory
 }
 
 func (t *cmdTracer) StartTask(task tracing.Task) {
@@ -100,6 +106,11 @@ func (t *cmdTracer) StartTask(task tracing.Task) {
 		t.d.mu.Lock()
 		t.d.kernels++
 		t.d.mu.Unlock()
+		// diagnosis mode BENCHRUN_INVALIDATE_L1: every L1 vector and scalar cache forgets
+		// its lines when a kernel launch command starts
+		for _, dir := range t.l1Dirs {
+			dir.Reset()
+		}
 	}
 	if task.Kind != "Driver Command" || task.What != "*driver.MemCopyD2HCommand" {
 		return
@@ -242,6 +253,30 @@ func attachDigester(r *runner.Runner, path string, unified bool) *digester {
 		die("digest mode: no compute unit found in the simulation")
 	}
 	ct := &cmdTracer{d: d, drv: r.Driver(), open: map[string]*driver.MemCopyD2HCommand{}, done: map[string]bool{}}
+	if os.Getenv("BENCHRUN_INVALIDATE_L1") != "" {
+		for _, c := range s.Components() {
+			switch c.(type) {
+			case *writearound.Comp, *writethrough.Comp:
+			default:
+				continue
+			}
+			if !strings.Contains(c.Name(), "L1V") && !strings.Contains(c.Name(), "L1S") {
+				continue
+			}
+			f := reflect.ValueOf(c).Elem().FieldByName("directory")
+			if !f.IsValid() {
+				die("cache %s has no field 'directory' any more", c.Name())
+			}
+			dir, ok := reflect.NewAt(f.Type(), unsafe.Pointer(f.UnsafeAddr())).Elem().Interface().(cache.Directory)
+			if !ok || dir == nil {
+				die("cache %s: directory is not a cache.Directory", c.Name())
+			}
+			ct.l1Dirs = append(ct.l1Dirs, dir)
+		}
+		if len(ct.l1Dirs) == 0 {
+			die("BENCHRUN_INVALIDATE_L1: no L1 vector/scalar cache found")
+		}
+	}
 	tracing.CollectTrace(r.Driver(), ct)
 	port := r.Driver().GetPortByName("GPU")
 	if port == nil {
